@@ -25,7 +25,7 @@ Why(R) ==
   ELSE \* not returned
        \* (a load that was ACCEPTED and then fails inside the stock unpickler - a global that cannot be resolved - is not a
        \* refusal: resolution was legitimately attempted; nothing of B may have run and nothing of A may have been called)
-       IF R.v # 9 /\ (\E a \in AccSet(R) : R.v <= a) /\ R.out = "other" /\ R.ranA = 0 /\ R.ranB = 0 /\ R.fam = "loadfails" THEN "ok"
+       IF R.v # 9 /\ (\E a \in AccSet(R) : R.v <= a) /\ R.out = "other" /\ R.ranA = 0 /\ R.ranB = 0 /\ R.stock_raises THEN "ok"      \* (the stock unpickler raises on these bytes with these options)
        ELSE IF R.resolved > 0 \/ R.ranA > 0 \/ R.ranB > 0 THEN "something named in the pickle was resolved or called although the load did not return"
        ELSE IF R.v # 9 /\ R.out # "unsafe" /\ (\A a \in AccSet(R) : R.v > a) THEN "verdict above the accepted severity but the error is not the unsafe-file error"
        ELSE IF R.v # 9 /\ R.out = "unsafe" /\ R.info # R.v THEN "unsafe-file error carries another verdict"
